@@ -359,11 +359,21 @@ func replaySmallFile(r *rand.Rand, in string, w *writer, chk []string) int {
 		var in struct {
 			Subj Paths `json:"subj"`
 			Clip Paths `json:"clip"`
+			Open Paths `json:"open"`
 			Ct   int   `json:"ct"`
 			Fr   int   `json:"fr"`
 		}
 		if err := json.Unmarshal([]byte(js), &in); err != nil {
 			fatal("bad input", err, js)
+		}
+		if len(in.Open) > 0 {
+			oe := &OpenEv{Ev: "OpenOp", Chk: chk, Api: openApis[n%len(openApis)], Ct: in.Ct, Fr: in.Fr,
+				Subj: nz(in.Subj), Open: nz(in.Open), Clip: nz(in.Clip)}
+			execOpen(r, oe)
+			w.emit(&EngEv{Ev: "Reset", Chk: []string{}, Hist: js})
+			w.emit(oe)
+			n++
+			continue
 		}
 		e := &BoolEv{Ev: "BooleanOp", Chk: chk, Api: boolApis[n%len(boolApis)], Ct: in.Ct, Fr: in.Fr,
 			Subj: nz(in.Subj), Clip: nz(in.Clip)}
